@@ -320,7 +320,7 @@ def snap_queues(self):
 
 
 def _incoming_contract(n):
-    @contract("bromelia.bromelia.Bromelia.get_incoming_message", prop="C13", name="%d-queues" % n, also=("C04",))
+    @contract("bromelia.bromelia.Bromelia.get_incoming_message", prop="C13", name="%d-queues" % n, also=("C04", "C14"))
     class _Incoming:
         """one call takes AT MOST ONE request, the head of one worker's queue, and returns it: no request is
         taken from a queue without being returned (it would never reach its handler nor get an answer); with
